@@ -179,6 +179,12 @@ def emitAt (c : Cls) (j : Nat) : Bool :=
   | some a => !a.kind.isList && !a.kind.isUnsupported
   | none => false
 
+/-- every enumeration a kind refers to exists -/
+def enumRefOk (enums : List (List Str)) : Kind → Bool
+  | .oneOf e => decide (e < enums.length)
+  | .listElem k _ => enumRefOk enums k
+  | _ => true
+
 def subTargetOk (S : Schema) (a : Attr) (t : Nat) : Bool :=
   match S.cls? t with
   | some tc => lower tc.name == a.name && !tc.name.contains '.' && S.findIdx? tc.name == some t
@@ -188,6 +194,7 @@ def subTargetOk (S : Schema) (a : Attr) (t : Nat) : Bool :=
     (`OfxProofs/Lemmas/WFBridge.lean` turns this into `Agg.ClsWF`) -/
 def roundTripOk (S : Schema) (c : Cls) : Bool :=
   decide (namesOf c).Nodup &&
+  c.spec.all (fun a => enumRefOk S.enums a.kind) &&
   c.spec.all (fun a => lower (upper a.name) == a.name && !(upper a.name).contains '.') &&
   c.spec.all (fun a =>
     match a.kind with
